@@ -112,10 +112,18 @@ theorem at_scale (c : LayerCfg) (x k inv : T) (b oh ow co : ℕ) (h : co < c.cou
     simp only
     exact dwconv2dAt_scale c.g c.cm x k inv b oh ow co (by simpa [LayerCfg.cout, hc] using h)
 
+/-- the channel of a flat output index is an output channel, in both layouts -/
+theorem chan_lt (c : LayerCfg) (t : ℕ) (h : 0 < c.cout) : c.chan t < c.cout := by
+  unfold LayerCfg.chan
+  split <;> exact Nat.mod_lt _ h
+
+theorem chan_channels_last (c : LayerCfg) (h : c.g.cf = false) : c.chan = fun t => t % c.cout := by
+  funext t; simp [LayerCfg.chan, h]
+
 theorem atFlat_scale (c : LayerCfg) (x k inv : T) (t : ℕ) (h : 0 < c.cout) :
-    c.atFlat x (scaleKernel c inv k) t = inv.getD (t % c.cout) 0 * c.atFlat x k t := by
+    c.atFlat x (scaleKernel c inv k) t = inv.getD (c.chan t) 0 * c.atFlat x k t := by
   unfold LayerCfg.atFlat
-  exact at_scale c x k inv _ _ _ _ (Nat.mod_lt _ h)
+  split <;> exact at_scale c x k inv _ _ _ _ (chan_lt c t h)
 
 theorem cout_pos_of_lt_outLen {c : LayerCfg} {t : ℕ} (h : t < c.outLen) : 0 < c.cout := by
   unfold LayerCfg.outLen at h
@@ -124,9 +132,19 @@ theorem cout_pos_of_lt_outLen {c : LayerCfg} {t : ℕ} (h : t < c.outLen) : 0 < 
   · exact h0
 
 theorem biasAdd_convOp (c : LayerCfg) (x k b : T) :
-    biasAdd c.cout (convOp c x k) b
-      = tabulate c.outLen (fun t => c.atFlat x k t + b.getD (t % c.cout) 0) := by
+    biasAdd c.chan (convOp c x k) b
+      = tabulate c.outLen (fun t => c.atFlat x k t + b.getD (c.chan t) 0) := by
   unfold biasAdd convOp
   exact mapIdx_tabulate _ _ _
+
+/-- `takeIf` takes the head exactly when the variable exists -/
+theorem takeIf_some {present : Bool} {ws : List T} {r : Option T × List T} (h : takeIf present ws = some r) :
+    r.1.isSome = present ∧ ws = r.1.toList ++ r.2 := by
+  unfold takeIf at h
+  cases present
+  · simp at h; subst h; simp
+  · cases ws with
+    | nil => simp at h
+    | cons w t => simp at h; subst h; simp
 
 end QKV.Fold
